@@ -30,7 +30,7 @@ ASSUMPTIONS = [
     "cutoff parameter left at its default (None)",
 ]
 BUDGET = {
-    "quick": dict(examples=60, shards=16, seconds=240, exhaustive=True, exhaustive_shards=8),
+    "quick": dict(examples=250, shards=16, seconds=240, exhaustive=True, exhaustive_shards=8),
     "thorough": dict(examples=700, shards=16, seconds=1500, exhaustive=True, exhaustive_shards=16),
 }
 ESSENTIAL_LABELS = {
